@@ -778,7 +778,14 @@ func (c *Conn) writev(in [][]byte) (int, error) {
 	}
 
 	nwrite, err := writev(c, in)
-	if nwrite > 0 {
+	if errors.Is(err, syscall.EINTR) || errors.Is(err, syscall.EAGAIN) {
+		// as Write does: what the socket does not take now is cached.
+		err = nil
+	}
+	if nwrite < 0 {
+		nwrite = 0
+	}
+	if err == nil {
 		n := nwrite
 		onWrittenSize := c.p.g.onWrittenSize
 		if n < size {
@@ -806,8 +813,6 @@ func (c *Conn) writev(in [][]byte) (int, error) {
 			// the rest has been cached, the whole input is accepted.
 			nwrite = size
 		}
-	} else {
-		nwrite = 0
 	}
 
 	return nwrite, err
